@@ -192,6 +192,20 @@ func genModel(p *simkit.Plan, r *simkit.Rand, tier string) {
 			p.Ops = append(append(p.Ops[:at:at], ins...), rest...)
 		}
 	}
+	if strings.HasSuffix(p.Scenario, "-crash") || (onDisk && p.Scenario != "disk-halt" && r.Chance(1, 10)) {
+		// Crashes tied to commit points instead of a point of the history: right
+		// after a rename took effect (under a root, or in the data directory's
+		// staging area), or at a step of an atomic save.
+		if r.Chance(1, 2) {
+			p.Faults = append(p.Faults, simkit.Fault{Kind: "crash_after", Key: simkit.Pick(r, []string{"alpha", "beta", "data", "any"}), Nth: r.Range(1, 1000), S: simkit.Pick(r, []string{"r2", "r4", "r8"})})
+		}
+		if r.Chance(1, 3) {
+			p.Faults = append(p.Faults, simkit.Fault{Kind: "crash_before", Key: "data", Nth: r.Range(1, 1000), S: simkit.Pick(r, []string{"r8", "r20", "r50"})})
+		}
+		if r.Chance(1, 2) {
+			p.Faults = append(p.Faults, simkit.Fault{Kind: "crash_step", Key: simkit.Pick(r, []string{"archives", "archives", "sessions", "caches"}), Nth: r.Range(1, 6), S: simkit.Pick(r, []string{"write", "close", "chmod", "rename", "done"})})
+		}
+	}
 	if p.Scenario == "disk-remote" {
 		// One or both endpoints behind the agent protocol.
 		c["remote_sides"] = int64(simkit.Pick(r, []int{1, 2, 2, 3}))
@@ -331,7 +345,7 @@ func genModel(p *simkit.Plan, r *simkit.Rand, tier string) {
 				burst = append(burst, simkit.Op{Actor: "user", Kind: "swaplink", S: []string{dst, simkit.Pick(r, []string{"a", "a", "a/b"})}})
 			} else {
 				// ... or exactly at the Nth system call of a transition there.
-				p.Faults = append(p.Faults, simkit.Fault{Kind: "fs_user", Key: dst + ".transition", Nth: r.Range(1, 40), S: "swaplink:" + simkit.Pick(r, []string{"a", "a", "a/b"})})
+				p.Faults = append(p.Faults, simkit.Fault{Kind: "fs_user", Key: dst + ".transition", Nth: r.Range(1, 10), S: "swaplink:" + simkit.Pick(r, []string{"a", "a", "a/b"})})
 			}
 			at := 0
 			for at < len(p.Ops) && p.Ops[at].Actor == "init" {
@@ -441,7 +455,9 @@ func genModel(p *simkit.Plan, r *simkit.Rand, tier string) {
 			if site[1] == "renameat" && r.Chance(1, 2) {
 				errno = 5 // EXDEV: staging on another device
 			}
-			p.Faults = append(p.Faults, simkit.Fault{Kind: "fs_errno", Key: simkit.Pick(r, []string{"alpha", "beta"}) + "." + site[0] + "." + site[1], Nth: r.Range(1, 6), Arg: errno})
+			// Nth is the salt of a rate rule: which operations fail depends on
+			// their path and per-path occurrence, not on sibling order.
+			p.Faults = append(p.Faults, simkit.Fault{Kind: "fs_errno", Key: simkit.Pick(r, []string{"alpha", "beta"}) + "." + site[0] + "." + site[1], Nth: r.Range(1, 1000), Arg: errno, S: simkit.Pick(r, []string{"r4", "r8", "r16"})})
 		}
 	}
 	if p.Scenario == "model-outcomes" {
@@ -550,6 +566,7 @@ func execSession(t *testing.T, plan *simkit.Plan) *simkit.Result {
 		if h != nil && h.disk != nil {
 			h.teardownDisk()
 		}
+		setHook(nil)
 		filesystem.VerifAtomicStepHook = nil
 		current = nil
 	}()
@@ -579,11 +596,48 @@ func execSession(t *testing.T, plan *simkit.Plan) *simkit.Result {
 					panic(err)
 				}
 			}
+			if h.disk == nil {
+				// Model endpoints: no roots on disk, but the data directory is
+				// real - crashes can be placed at its system calls too.
+				dd := &diskState{h: h}
+				setHook(func(op string, dirfd int, path string, dirfd2 int, path2 string) error {
+					if s.Crashed() {
+						s.ParkForever()
+					}
+					if s.PassThrough() {
+						return nil
+					}
+					abs := joinFD(dirfd, path)
+					dd.crashBefore(op, "data", filepath.Base(abs))
+					if op == "renameat" || op == "renameat2" {
+						dd.crashAfterRename(op, dirfd, path, dirfd2, path2, "data", filepath.Base(joinFD(dirfd2, path2)))
+					}
+					return nil
+				})
+			}
 			// Nothing of a crashed incarnation reaches the data directory any
 			// more: its saves stop at their next step.
 			filesystem.VerifAtomicStepHook = func(step, target string, temporary *os.File) {
 				if s.Crashed() {
 					s.ParkForever()
+				}
+				// Fault kind crash_step: the daemon dies at this step of the
+				// Nth atomic save of a file of that kind (sessions, archives,
+				// caches), optionally with part of the data in the temporary.
+				kind := filepath.Base(filepath.Dir(target))
+				if step == "write" {
+					s.Occur("save." + kind)
+				}
+				for _, f := range s.FaultsOfKind("crash_step") {
+					if s.FaultsStopped() || f.Key != kind || f.S != step {
+						continue
+					}
+					if s.OccurCount("save."+kind) == f.Nth {
+						s.Logf("fault", "the daemon dies at step %q of save %d of %s", step, f.Nth, kind)
+						s.Count("fault.crash_at_save_step", 1)
+						s.Crash()
+						s.ParkForever()
+					}
 				}
 			}
 			// Initial content.
@@ -603,6 +657,9 @@ func execSession(t *testing.T, plan *simkit.Plan) *simkit.Result {
 		h.pollWake = map[string]chan struct{}{"alpha": make(chan struct{}, 1), "beta": make(chan struct{}, 1)}
 		h.mu.Unlock()
 		h.logger = h.newLogger()
+		// (No faults while this goroutine - the scheduler's - is itself inside
+		// the system under test: a crash would park the scheduler.)
+		s.HoldFaults(true)
 		mgr, err := synchronization.NewManager(h.logger)
 		if err != nil {
 			if phase > 0 {
@@ -616,7 +673,41 @@ func execSession(t *testing.T, plan *simkit.Plan) *simkit.Result {
 		h.mu.Unlock()
 		if phase > 0 {
 			h.checkAfterCrash(mgr)
+			if !created {
+				// The daemon died while the session was being created. Whatever
+				// made it to disk decides: a complete session is adopted, a
+				// half-created one (session file without archive) is terminated
+				// by the user, and creation starts over. Done by an actor under
+				// the scheduler: the session's run loop needs its gates granted.
+				var adoptMu sync.Mutex
+				adopted := false
+				s.Go("client", func() {
+					defer func() { adoptMu.Lock(); adopted = true; adoptMu.Unlock() }()
+					_, states, _ := mgr.List(context.Background(), &selection.Selection{All: true}, 0)
+					for _, st := range states {
+						id := st.Session.Identifier
+						h.mu.Lock()
+						h.sessionID = id
+						h.sel = &selection.Selection{Specifications: []string{id}}
+						h.mu.Unlock()
+						if _, aerr := h.loadArchive(); aerr == nil && !created {
+							created = true
+							s.Count("probe.session_adopted_after_crash_in_create", 1)
+							continue
+						}
+						s.Count("probe.half_created_session_terminated", 1)
+						mgr.Terminate(context.Background(), &selection.Selection{Specifications: []string{id}}, "")
+						if !created {
+							h.mu.Lock()
+							h.sessionID, h.sel = "", nil
+							h.mu.Unlock()
+						}
+					}
+				})
+				s.Loop(func() bool { adoptMu.Lock(); defer adoptMu.Unlock(); return adopted })
+			}
 		}
+		s.HoldFaults(false)
 		configuration := &synchronization.Configuration{SynchronizationMode: h.mode}
 		h.configure(configuration)
 		alphaURL := &urlpkg.URL{Kind: urlpkg.Kind_Synchronization, Protocol: urlpkg.Protocol_Local, Path: h.rootPath("alpha")}
@@ -634,7 +725,7 @@ func execSession(t *testing.T, plan *simkit.Plan) *simkit.Result {
 				fn()
 			})
 		}
-		allDone := func() bool { mu.Lock(); defer mu.Unlock(); return running == 0 || crashNow }
+		allDone := func() bool { mu.Lock(); defer mu.Unlock(); return running == 0 || crashNow || s.Crashed() }
 		s.Eligible = func(g *simkit.Gate) bool {
 			if !strings.HasPrefix(g.Label, "client") && g.Label != "settle" {
 				return true
@@ -758,7 +849,7 @@ func execSession(t *testing.T, plan *simkit.Plan) *simkit.Result {
 		}
 		stop := s.Loop(allDone)
 		mu.Lock()
-		crashed := crashNow
+		crashed := crashNow || s.Crashed()
 		mu.Unlock()
 		if crashed {
 			s.Logf("sim", "incarnation %d ended by a crash at step %d", phase, s.Step())
